@@ -20,7 +20,7 @@ def finalValues (fs : Pflag.PFlags) (sets : List (Str × Str)) : List (String ×
       | .count =>
         let n : Int := vs.foldl (fun acc v => if v == "+1".toList then acc + 1 else (String.ofList v).toInt?.getD 0) 0
         toString n
-      | .stringArray | .ipNetSlice => "*"
+      | .stringArray | .ipNetSlice | .boolSlice => "*"
       | .stringSlice => "[" ++ String.intercalate "," ((vs.filter (fun v => !v.isEmpty)).map String.ofList) ++ "]"   -- an empty value adds no element
       | _ => String.ofList (vs.getLast?.getD [])
     (String.ofList n, v))
@@ -33,7 +33,9 @@ def runPflagParseOp (inp out : Json) : Json :=
   -- the general specification (fork features); without them the POSIX specification, which the theorems use, must agree
   let forky := flagsS.any FlagS.fork
   let modelP := Pflag.parse fs (jbool inp "interspersed") args
-  let model := PflagG.parseG (flagsS.map toPFlagG) (jbool inp "interspersed") args
+  let wl := jbool inp "whitelist"
+  let model := PflagG.parseG (flagsS.map toPFlagG) (jbool inp "interspersed") args wl
+  let forky := forky || wl
   let specsAgree := forky || (match model, modelP with
     | .ok a, .ok b => a == b
     | .error a, .error b => a == b
